@@ -24,6 +24,7 @@ import (
 	"github.com/mimiro-io/datahub/internal/conf"
 	"github.com/mimiro-io/datahub/internal/security"
 	"github.com/mimiro-io/datahub/internal/server"
+	"github.com/mimiro-io/datahub/internal/verifhook"
 )
 
 // The Runner is used to organize and keep track of configured jobs. It is also responsible for running (duh) jobs.
@@ -76,6 +77,7 @@ func NewRunner(
 // and cancel them.
 func (runner *Runner) Stop() {
 	jobrunner.Stop()
+	verifhook.Access(runner.raffle.runningJobs, "raffle.runningJobs", false)
 	for _, v := range runner.raffle.runningJobs {
 		v.cancel()
 	}
